@@ -192,8 +192,22 @@ def run_part(sc, binary, test, part, tier, seed, timeout, env=None, replay=None,
         e.update(env)
     cmd = ["timeout", "-s", "QUIT", str(timeout), binary, "-test.run", f"^{test}$", "-test.timeout", "0", "-test.count", "1", "-test.v"]
     t0 = time.time()
+    # The child runs in its own session so that everything it started (worker processes, servers,
+    # ego binaries) can be removed with it, also when this driver itself is told to stop.
     with open(logp, "w") as lf:
-        r = subprocess.run(cmd, cwd=cwd or sc.root, env=e, stdout=lf, stderr=subprocess.STDOUT)
+        proc = subprocess.Popen(cmd, cwd=cwd or sc.root, env=e, stdout=lf, stderr=subprocess.STDOUT, start_new_session=True)
+        try:
+            proc.wait()
+        finally:
+            try:
+                os.killpg(proc.pid, signal.SIGKILL)
+            except (ProcessLookupError, PermissionError):
+                pass
+            try:
+                proc.wait(timeout=30)
+            except Exception:  # noqa
+                pass
+    r = proc
     dt = time.time() - t0
     rep = None
     if os.path.exists(outp):
